@@ -109,7 +109,14 @@ def enc_field(f, ty, v):
     else:
         raise ValueError(k)
     t = b"" if f["tag"] is None else tag_bytes(f["tag"])
-    return t + len_prefix(f["length"], len(payload)) + payload
+    return t + place(f, ty, payload)
+
+
+def place(f, ty, payload):
+    """length prefix + payload; text behind a fixed width is padded at its END (the decoder trims trailing NULs)"""
+    if ty["k"] == "prim" and ty["p"] == "String" and f["length"].startswith("LFixed"):
+        return payload + len_prefix(f["length"], len(payload))
+    return len_prefix(f["length"], len(payload)) + payload
 
 
 def enc_fields(fields, vals):
@@ -198,6 +205,8 @@ def gen_prim(rng, f, p, big=False):
         return gen_int(rng, f, p)
     if p == "String":
         n = gen_len(rng, style, small=not big)
+        if e == "Default" and fixed_n(style) is not None and rng.random() < 0.4:
+            n = rng.choice([0, 1, max(0, n - 2), max(0, n - 1)])      # text shorter than its fixed-width field
         if e == "Default":
             cps = [rng.choice(CP437) for _ in range(n)]
             if cps and cps[-1] == 0:
